@@ -59,14 +59,16 @@ def run(ctx):
                         continue
                     if row.get("e") == "Region":
                         events.append(row)
-                    elif row.get("fault") or row.get("abort") or row.get("hang"):
+                    elif row.get("fault") or row.get("abort") or row.get("hang") or row.get("op") == "abort":
                         # drivers that survive a fault (guard page / sanitizer in recover mode / assertion / hang
                         # guard) log it in the line of the case that committed it
                         n += 1
                         kind = {1: "asan", 2: "segv", 3: "abort", 4: "timeout"}.get(row.get("fault"), "abort" if row.get("abort") else "hang" if row.get("hang") else "fault")
-                        events.append({"e": "Abort", "kind": kind, "site": "%s:%s" % (row.get("op"), row.get("cls", ""))})
+                        if row.get("op") == "abort":
+                            kind = "abort"
+                        events.append({"e": "Abort", "kind": kind, "site": "%s:%s" % (row.get("in", row.get("op")), row.get("cls", ""))})
                         events.append({"e": "Run", "suite": s["name"], "run": args[0], "cfg": var})
-                        ctx.violation("%s:%s:%s:%s" % (kind, row.get("op"), str(row.get("cls", ""))[:40], s["name"]),
+                        ctx.violation("%s:%s:%s:%s" % (kind, row.get("in", row.get("op")), str(row.get("cls", ""))[:40], s["name"]),
                                       "exact-size %s build: %s inside %s (%s) during suite %s" % (var, kind, row.get("op"), row.get("cls", ""), s["name"]),
                                       {"variant": var, "line": {k: (v if not isinstance(v, list) or len(v) < 64 else v[:64]) for k, v in row.items()}})
                     else:
